@@ -534,6 +534,35 @@ def gen_equiv_cases(fmts, rng, tier):
     return out
 
 
+HIST_FORMATS = ["a8r8g8b8", "x8r8g8b8", "b8g8r8a8", "r8g8b8", "r5g6b5", "a1r5g5b5", "a4r4g4b4", "a8", "a2b2g2r2", "r3g3b2",
+                "a4", "a1r1g1b1", "a1", "a2r10g10b10", "x2b10g10r10"]
+
+
+def gen_hist_cases(fmts, rng, tier):
+    """accessor histories on one image (harness/drv_accequiv.c, H lines): callbacks installed after a direct use (h1),
+       removed after use (h2), swapped (h3); the callbacks redirect to backing buffers and count calls"""
+    out = []
+    w, h = 9, 2
+    hists = ["DA", "AD", "ABA", "DAD"] if tier == "quick" else ["DA", "AD", "ABA", "DAD", "BAB", "DBA", "ADB"]
+    ops = {"s": [1, 3], "m": [3, 5], "d": [1, 3, 12]}
+    k = 0
+    for name in HIST_FORMATS:
+        F = fmts[name]
+        stride = ((w * F.bpp + 31) // 32) * 4 + 4
+        for role in ("s", "m", "d"):
+            if role == "d" and not F.dst_ok:
+                continue
+            for hist in hists:
+                k += 1
+                op = ops[role][k % len(ops[role])]
+                bufs = [bytes(rng.getrandbits(8) for _ in range(stride * h)) for _ in range(3)]
+                plain = [bytes(rng.getrandbits(8) for _ in range(w * 4 * h)) for _ in range(2)]
+                line = "H %s %s %d %d %d %d %d %s" % (role, hist, F.code, w, h, stride, op,
+                                                      " ".join(b.hex() for b in bufs + plain))
+                out.append(("hist-" + role + "-" + hist, name, line))
+    return out
+
+
 MC_CODES_NOTE = "spec/mc/FormatsMC.tla AllCodes"
 
 
@@ -573,8 +602,30 @@ def run_driver(exe, script_lines, wd, tag, nb, env_extra=None, timeout=900):
         p = vf.sh([exe, sp, tr], timeout=timeout, check=False, env=env)
         if p.returncode != 0:
             raise vf.Infra("driver %s failed rc=%d: %s" % (os.path.basename(exe), p.returncode, (p.stdout or "")[-1000:]))
+        drop_partial_event(tr)
         traces.append(tr)
     return traces
+
+
+def drop_partial_event(tr):
+    """a driver that crashes inside the library leaves the event it was writing unfinished, followed by the Crash
+       event of its signal handler; the unfinished line is dropped so that TLC can read the trace and reject the
+       Crash event (which no action of the trace specification explains)"""
+    with open(tr, "rb") as f:
+        f.seek(0, 2)
+        f.seek(max(0, f.tell() - 200))
+        if b'"e":"Crash"' not in f.read():
+            return
+    keep = []
+    for line in open(tr, errors="replace"):
+        if not line.strip():
+            continue
+        try:
+            json.loads(line)
+            keep.append(line if line.endswith("\n") else line + "\n")
+        except ValueError:
+            pass
+    open(tr, "w").writelines(keep)
 
 
 GENERAL_ONLY = {"PIXMAN_DISABLE": "fast mmx sse2 ssse3"}
@@ -597,7 +648,7 @@ def run_c10(args):
         e = dict(os.environ)
         if os.path.exists(script + ".general"):
             e["PIXMAN_DISABLE"] = open(script + ".general").read().strip()
-        if any(l.startswith("E ") for l in open(script)):
+        if any(l.startswith("E ") or l.startswith("H ") for l in open(script)):
             exe, _ = vf.build_driver("drv_accequiv", "plain")
         vf.sh([exe, script, tr], timeout=600, env=e)
         vf.validate_batches(chk, "FormatsTrace", [tr], parallel=1)
@@ -631,6 +682,9 @@ def run_c10(args):
     # 3b. accessor equivalence of every drawing entry point (ViaAccessors(req) = Direct(req))
     exe_e, _ = vf.build_driver("drv_accequiv", "plain")
     ecases = gen_equiv_cases(fmts, rng, args.tier)
+    hcases = gen_hist_cases(fmts, rng, args.tier)
+    chk.extra["accessor_history_scenarios"] = len(hcases)
+    ecases += hcases
     elines = [c[2] for c in ecases]
     traces += run_driver(exe_e, elines, wd, "eqd", 12)
     traces_g += run_driver(exe_e, elines, wd, "eqg", 12, env_extra=GENERAL_ONLY)
@@ -643,7 +697,7 @@ def run_c10(args):
     chk.sample({"accessor_equivalence_script_line": elines[0][:260]})
     for tr in traces + traces_g:
         for line in open(tr):
-            if line.startswith('{"e":"Fetch"') or line.startswith('{"e":"Store"') or line.startswith('{"e":"Equiv"'):
+            if line.startswith('{"e":"Fetch"') or line.startswith('{"e":"Store"') or line.startswith('{"e":"Equiv"') or line.startswith('{"e":"Hist"'):
                 chk.evaluations += 1
     for kind, F, C, line in cases:
         chk.distinct_keys.add(hashlib.sha1(line.encode()).hexdigest()[:16])
@@ -825,13 +879,13 @@ def residue_pairs():
     return res_
 
 
-def build_row(tc, fs, fm, fd, pres, mpres, rng, origin, chain=None, solid16=None, msolid16=None):
+def build_row(tc, fs, fm, fd, pres, mpres, rng, origin, chain=None, solid16=None, msolid16=None, dither=(0, 0, 0)):
     """one composite request from a TLC-generated row of abstract pixel tuples; chain = the previous request
        whose destination this one continues on (same geometry; DST "=")"""
     op, mode, fam, row = tc["op"], tc["mode"], tc["fam"], tc["row"]
     w = len(row)
     narrow = (not fs.wide) and (not fd.wide) and (fm is None or not fm.wide)
-    exact = op <= 12 and narrow
+    exact = op <= 12 and narrow and not dither[0]        # a dithered destination is written through the wide pipeline
     if pres in (3, 6):
         sx, sw = -2, max(1, w - 3)
     elif pres == 2:
@@ -892,9 +946,10 @@ def build_row(tc, fs, fm, fd, pres, mpres, rng, origin, chain=None, solid16=None
             v = premult_native(fd, v)
         dpx.append(fd.word(v))
     dst = pack_pixels(fd.bpp, dpx, dx, dw, rng)
-    line = "C %d %d %d %d %d %d %d %d %d %d %d %d %d %d %d %s %s %s" % (
+    line = "C %d %d %d %d %d %d %d %d %d %d %d %d %d %d %d %d %d %d %s %s %s" % (
         op, 1 if mode == "ca" else 0, 0 if fm is None else 1, fs.code, fm.code if fm else 0, fd.code,
-        pres, mpres, sw, sx, mw, mx, dw, dx, w, hx(src), hx(msk), "=" if chain is not None else hx(dst))
+        pres, mpres, sw, sx, mw, mx, dw, dx, w, dither[0], dither[1], dither[2],
+        hx(src), hx(msk), "=" if chain is not None else hx(dst))
     keys = [(op, mode, fs.code, fm.code if fm else 0, fd.code, spx[spos(i)], mpx[i], dpx[i]) for i in range(w)]
     if chain is not None:
         keys = []                   # the destination values are whatever the previous request left
@@ -962,6 +1017,20 @@ def gen_c01_cases(fmts, tcases, fastpaths, rng, tier):
             else:
                 pres = rng.choice([2, 4, 6])
             out.append(build_row(tc, fp["fs"], fp["fm"], fp["fd"], pres, 1 if fp["msolid"] else 0, rng, "fastpath"))
+    # ---- ordered dithering of the destination (bayer / blue noise, non-zero offsets) on narrow destinations: the
+    #      request goes through the wide pipeline; the result must still be within one step of the real value
+    k = 0
+    dith_dst = [fmts["r5g6b5"], fmts["a1r5g5b5"], A8888]
+    for tc in tcases:
+        if tc["fam"] not in ("premul", "rndpm", "sat") or (tc["op"] * 7 + len(tc["row"])) % (4 if quick else 1):
+            continue
+        k += 1
+        fd = dith_dst[k % 3]
+        fs = [A8888, fmts["x8r8g8b8"], fmts["r5g6b5"], fmts["a8"]][k % 4]
+        fm = None if tc["mode"] == "none" else (fmts["a8"] if tc["mode"] == "unified" else A8888)
+        dith = ([1, 2, 3, 4, 5][k % 5], [3, 61, 1, 7][k % 4], [5, 2, 63, 9][(k // 4) % 4])
+        out.append(build_row(tc, fs, fm, fd, rng.choice([0, 0, 4, 5]), 0, rng, "dither", dither=dith))
+
     # ---- rounding residues of the 8-bit multiply-and-round primitive: products a*b on the residues mod 255 where
     #      a rounding constant or carry that is off by one changes the result (and on 0 / 254), through the operators
     #      and format combinations whose 8-bit routines multiply scalars (solid x a8 -> a8 IN / ADD, a8 IN a8, ...)
@@ -1091,6 +1160,7 @@ def run_c01(args):
     chk.extra["rows_by_presentation"] = {str(p): sum(1 for c in cases if c["pres"] == p) for p in range(8)}
     chk.extra["rows_with_solid_mask"] = sum(1 for c in cases if c["mpres"] == 1)
     chk.extra["rows_aimed_at_fast_paths"] = sum(1 for c in cases if c["origin"] == "fastpath")
+    chk.extra["rows_with_dithered_destination"] = sum(1 for c in cases if c["origin"] == "dither")
     chk.extra["rows_rounding_residue_suite"] = sum(1 for c in cases if c["origin"] == "residue")
     chk.extra["rows_with_solid_fill_source_or_mask_16bit"] = sum(1 for c in cases if c["origin"] == "solid16")
     chk.extra["rows_chained_on_previous_destination"] = sum(1 for c in cases if c["origin"] == "chain")
@@ -1121,7 +1191,8 @@ def run_c01(args):
                          "premultiplied by construction, so every case is judged")
     cleanup(chk, wd, args)
     chk.assumptions += ["little-endian host", "tolerance class judged on premultiplied inputs (colour <= alpha)",
-                        "HSL operators with a component-alpha mask, sRGB / float formats and dithering are outside the domain",
+                        "HSL operators with a component-alpha mask and sRGB / float formats are outside the domain; a dithered "
+                        "destination is accepted within one step of the real value or as the undithered result",
                         "the source pixel a destination pixel sees under the five presentations is the sampling rule of C08 "
                         "(integer translation, exact 2x scale, PAD clamp, 1+1/65536 scale at small coordinates)",
                         "TLC/SANY and the CommunityModules Json reader are trusted"]
